@@ -612,6 +612,20 @@ func c18Run(c ttyCase) (fail *vlib.Failure, st c18Stats, herr error) {
 		consScrolls, deactivated, scrolledInactive = 0, false, false
 		return pc
 	}
+	// a terminal may be switched on and off before it has a console: there is nothing to show yet
+	pre := c.Pre
+	if len(pre) > 0 && pre[len(pre)-1] {
+		pre = append(append([]bool(nil), pre...), false)
+	}
+	for k, on := range pre {
+		state := StateInactive
+		if on {
+			state = StateActive
+		}
+		if pc := vlib.CatchFault(func() { vt.SetState(state) }); pc.Panicked {
+			return vlib.Failf("SetState #%d (active=%v) on a terminal that has no console yet: %v", k, on, pc), st, nil
+		}
+	}
 	if pc := attach(dev); pc.Panicked {
 		return vlib.Failf("AttachTo: %v", pc), st, nil
 	}
@@ -770,6 +784,11 @@ func c18Classify(c ttyCase, s c18Stats) (bool, []string) {
 			l = append(l, x)
 		}
 	}
+	for _, on := range c.Pre {
+		if on {
+			add("terminal-switched-on-and-off-before-its-first-console")
+		}
+	}
 	for _, sp := range specs {
 		add("console-" + sp.Kind)
 		if sp.W == 1 {
@@ -908,6 +927,9 @@ func c18GenCase(t *rapid.T, consGen func(*rapid.T) ttyCons) ttyCase {
 		reattach = nil // known finding: a re-attached terminal writes at a stale offset
 	}
 	c.Ops = ttyGenOps(t, ttyGenOp(reattach, true))
+	if rapid.IntRange(0, 5).Draw(t, "switchedbeforeattach") == 0 {
+		c.Pre = rapid.SliceOfN(rapid.Bool(), 1, 3).Draw(t, "pre")
+	}
 	if c.Cons.W > 100 {
 		// lines that reach the right-hand columns of a wide screen
 		for k := rapid.IntRange(1, 3).Draw(t, "longlines"); k > 0; k-- {
